@@ -12,8 +12,10 @@
      ready    the descriptor is readable (read op) / writable (write op); set by the peer, cleared
               by a successful readv that drains the pipe; level triggered: epoll_wait returns the
               registration's pointer whenever reg && ready;
-     fail     Some e: readv/writev fails with errno e (EISDIR, EFAULT ...) whatever ready says;
-              otherwise it transfers the bytes if ready and fails with EAGAIN if not.
+     fail     Some k: readv/writev fails with an errno of kind k whatever ready says (KAgain = EAGAIN /
+              EWOULDBLOCK, KPerm = EPERM, KOther = any other: EISDIR, EFAULT, ...; the code
+              distinguishes nothing else); otherwise it transfers the bytes if ready and fails
+              with EAGAIN if not.
 
    The operation: state_ = io count * 0x10000 + cancel count (fetch_add of io_flag /
    cancel_pending_flag elects who completes), completion_base::enqueued_ / done_op::enqueued_,
@@ -33,6 +35,10 @@
      1  the I/O thread takes the remote queue        2  its epoll_wait returns the operation
      3  the thread calling start() (remote start only)
      4  the peer (makes the descriptor ready)        5.. stoppers calling request_stop()
+   The state is a pair: `core` (everything above; the pc of the one thread that runs the stop
+   callback is the global field `runner`) and the stoppers' own status list, so that every property
+   of `core` can be decided on the finite transition system of `core` alone, whatever the number
+   of stoppers (Proto/IoCancelProofs.v).
 
    fixed = false: the code as written.  fixed = true: with out/C14/fix_epoll_*.diff applied:
      (6)  start_io registers with epoll BEFORE constructing the stop callback;
@@ -45,11 +51,11 @@ Import ListNotations.
 
 Module IoCancel.
 
-Definition EPERM := 1.
-Definition EAGAIN := 11.
+Inductive errkind := KAgain | KPerm | KOther.
+Definition is_again (k : errkind) : bool := match k with KAgain => true | _ => false end.
 
-Inductive sysres := SOk | SFail (e : nat).           (* bytes transferred / -1 with errno e *)
-Inductive result := RValue | RError (e : nat) | RDone.
+Inductive sysres := SOk | SFail (e : errkind).       (* bytes transferred / -1 with errno e *)
+Inductive result := RValue | RError (e : errkind) | RDone.
 Inductive qitem := QComp | QDone.                    (* completion_base / done_op of the operation *)
 Inductive handler := HStart | HComplete.             (* on_schedule_complete / on_read|write_complete *)
 Inductive cbstate :=
@@ -85,15 +91,16 @@ Inductive iopc :=
 | IDResched             (* schedule_local(done_op): ++enqueued_ (665 / 894) *)
 | ICrashed.             (* called a null execute_ *)
 
-Inductive kpc := KSet | KCb (c : cbpc) | KStore | KFin.    (* a stopper *)
+Inductive rpc := RNone | RCb (c : cbpc) | RStore.         (* the thread running the callback *)
+Inductive kst := KSet | KRun | KFin.                      (* a stopper: before request_stop / running the callback / returned *)
 Inductive tpc := TInc | TEnq | TFin.                        (* start() off the I/O thread (535-537) *)
 
 Record params := {
-  fixed : bool; is_write : bool; remote : bool; pre : bool; nstop : nat;
-  ready0 : bool; fail : option nat; pollable : bool
+  fixed : bool; is_write : bool; remote : bool; pre : bool;
+  ready0 : bool; fail : option errkind; pollable : bool
 }.
 
-Record st := {
+Record core := {
   par : params;
   (* kernel *)
   reg : bool; ready : bool;
@@ -103,13 +110,13 @@ Record st := {
   (* queues *)
   batch : list qitem; localq : list qitem; remoteq : list qitem (* newest first *); polled : bool;
   (* threads *)
-  io : iopc; starter : tpc; peer_done : bool; stoppers : list kpc;
+  io : iopc; starter : tpc; peer_done : bool; runner : rpc;
   (* ghost *)
   completed : list result;   (* completions of the receiver, newest first *)
   uaf : bool;                (* a field of the operation was accessed after its completion *)
   stale : bool;              (* epoll_wait returned the pointer of a completed / consumed completion *)
   xfer : nat;                (* successful readv/writev calls *)
-  errs : list nat            (* errnos (other than EAGAIN) of failed readv/writev calls, newest first *)
+  errs : list errkind        (* errnos of failed readv/writev calls when `fail` is set, newest first *)
 }.
 
 Inductive ev :=
@@ -126,7 +133,7 @@ Inductive ev :=
 | EComplete (r : result)
 | ECrash.
 
-Definition init (p : params) : st :=
+Definition init_core (p : params) : core :=
   {| par := p; reg := false; ready := ready0 p;
      s_io := 0; s_cancel := 0; cenq := 0; denq := 0;
      exec := if remote p then Some HStart else None;
@@ -134,7 +141,7 @@ Definition init (p : params) : st :=
      batch := []; localq := []; remoteq := []; polled := false;
      io := if remote p then IIdle else ISys0;
      starter := if remote p then TInc else TFin;
-     peer_done := false; stoppers := repeat KSet (nstop p);
+     peer_done := false; runner := RNone;
      completed := []; uaf := false; stale := false; xfer := 0; errs := [] |}.
 
 Fixpoint set_nth {A} (n : nat) (x : A) (l : list A) : list A :=
@@ -145,103 +152,103 @@ Fixpoint set_nth {A} (n : nat) (x : A) (l : list A) : list A :=
   end.
 
 (* ---- field updates ------------------------------------------------------------------------- *)
-Definition upd_kernel (s : st) (r rd : bool) : st :=
+Definition upd_kernel (s : core) (r rd : bool) : core :=
   {| par := par s; reg := r; ready := rd; s_io := s_io s; s_cancel := s_cancel s; cenq := cenq s; denq := denq s;
      exec := exec s; stopped := stopped s; cb := cb s; batch := batch s; localq := localq s; remoteq := remoteq s;
-     polled := polled s; io := io s; starter := starter s; peer_done := peer_done s; stoppers := stoppers s;
+     polled := polled s; io := io s; starter := starter s; peer_done := peer_done s; runner := runner s;
      completed := completed s; uaf := uaf s; stale := stale s; xfer := xfer s; errs := errs s |}.
-Definition upd_op (s : st) (i c ce de : nat) (ex : option handler) : st :=
+Definition upd_op (s : core) (i c ce de : nat) (ex : option handler) : core :=
   {| par := par s; reg := reg s; ready := ready s; s_io := i; s_cancel := c; cenq := ce; denq := de;
      exec := ex; stopped := stopped s; cb := cb s; batch := batch s; localq := localq s; remoteq := remoteq s;
-     polled := polled s; io := io s; starter := starter s; peer_done := peer_done s; stoppers := stoppers s;
+     polled := polled s; io := io s; starter := starter s; peer_done := peer_done s; runner := runner s;
      completed := completed s; uaf := uaf s; stale := stale s; xfer := xfer s; errs := errs s |}.
-Definition upd_src (s : st) (stp : bool) (c : cbstate) : st :=
+Definition upd_src (s : core) (stp : bool) (c : cbstate) : core :=
   {| par := par s; reg := reg s; ready := ready s; s_io := s_io s; s_cancel := s_cancel s; cenq := cenq s; denq := denq s;
      exec := exec s; stopped := stp; cb := c; batch := batch s; localq := localq s; remoteq := remoteq s;
-     polled := polled s; io := io s; starter := starter s; peer_done := peer_done s; stoppers := stoppers s;
+     polled := polled s; io := io s; starter := starter s; peer_done := peer_done s; runner := runner s;
      completed := completed s; uaf := uaf s; stale := stale s; xfer := xfer s; errs := errs s |}.
-Definition upd_q (s : st) (b l r : list qitem) (p : bool) : st :=
+Definition upd_q (s : core) (b l r : list qitem) (p : bool) : core :=
   {| par := par s; reg := reg s; ready := ready s; s_io := s_io s; s_cancel := s_cancel s; cenq := cenq s; denq := denq s;
      exec := exec s; stopped := stopped s; cb := cb s; batch := b; localq := l; remoteq := r;
-     polled := p; io := io s; starter := starter s; peer_done := peer_done s; stoppers := stoppers s;
+     polled := p; io := io s; starter := starter s; peer_done := peer_done s; runner := runner s;
      completed := completed s; uaf := uaf s; stale := stale s; xfer := xfer s; errs := errs s |}.
-Definition upd_io (s : st) (p : iopc) : st :=
+Definition upd_io (s : core) (p : iopc) : core :=
   {| par := par s; reg := reg s; ready := ready s; s_io := s_io s; s_cancel := s_cancel s; cenq := cenq s; denq := denq s;
      exec := exec s; stopped := stopped s; cb := cb s; batch := batch s; localq := localq s; remoteq := remoteq s;
-     polled := polled s; io := p; starter := starter s; peer_done := peer_done s; stoppers := stoppers s;
+     polled := polled s; io := p; starter := starter s; peer_done := peer_done s; runner := runner s;
      completed := completed s; uaf := uaf s; stale := stale s; xfer := xfer s; errs := errs s |}.
-Definition upd_thr (s : st) (t : tpc) (pd : bool) (ks : list kpc) : st :=
+Definition upd_thr (s : core) (t : tpc) (pd : bool) (r : rpc) : core :=
   {| par := par s; reg := reg s; ready := ready s; s_io := s_io s; s_cancel := s_cancel s; cenq := cenq s; denq := denq s;
      exec := exec s; stopped := stopped s; cb := cb s; batch := batch s; localq := localq s; remoteq := remoteq s;
-     polled := polled s; io := io s; starter := t; peer_done := pd; stoppers := ks;
+     polled := polled s; io := io s; starter := t; peer_done := pd; runner := r;
      completed := completed s; uaf := uaf s; stale := stale s; xfer := xfer s; errs := errs s |}.
-Definition upd_ghost (s : st) (c : list result) (u st_ : bool) (x : nat) (e : list nat) : st :=
+Definition upd_ghost (s : core) (c : list result) (u st_ : bool) (x : nat) (e : list errkind) : core :=
   {| par := par s; reg := reg s; ready := ready s; s_io := s_io s; s_cancel := s_cancel s; cenq := cenq s; denq := denq s;
      exec := exec s; stopped := stopped s; cb := cb s; batch := batch s; localq := localq s; remoteq := remoteq s;
-     polled := polled s; io := io s; starter := starter s; peer_done := peer_done s; stoppers := stoppers s;
+     polled := polled s; io := io s; starter := starter s; peer_done := peer_done s; runner := runner s;
      completed := c; uaf := u; stale := st_; xfer := x; errs := e |}.
 
-Definition is_completed (s : st) : bool := match completed s with [] => false | _ => true end.
+Definition is_completed (s : core) : bool := match completed s with [] => false | _ => true end.
 
 (* every step that reads or writes a field of the operation object goes through touch *)
-Definition touch (s : st) : st :=
+Definition touch (s : core) : core :=
   upd_ghost s (completed s) (uaf s || is_completed s) (stale s) (xfer s) (errs s).
 
-Definition complete (s : st) (r : result) : st :=
+Definition complete (s : core) (r : result) : core :=
   upd_ghost s (r :: completed s) (uaf s) (stale s) (xfer s) (errs s).
 
 (* ---- kernel ------------------------------------------------------------------------------------ *)
 (* readv / writev on the descriptor *)
-Definition do_sys (s : st) : st * sysres :=
+Definition do_sys (s : core) : core * sysres :=
   match fail (par s) with
   | Some e => (upd_ghost s (completed s) (uaf s) (stale s) (xfer s) (e :: errs s), SFail e)
   | None =>
       if ready s
       then (upd_ghost (upd_kernel s (reg s) (if is_write (par s) then true else false))
                       (completed s) (uaf s) (stale s) (S (xfer s)) (errs s), SOk)
-      else (s, SFail EAGAIN)
+      else (s, SFail KAgain)
   end.
 
-Definition do_add (s : st) : st * nat :=
+Definition do_add (s : core) : core * nat :=
   if negb (pollable (par s)) then (s, 1)           (* EPERM *)
   else if reg s then (s, 17)                       (* EEXIST *)
   else (upd_kernel s true (ready s), 0).
-Definition do_del (s : st) : st * nat :=
+Definition do_del (s : core) : core * nat :=
   if reg s then (upd_kernel s false (ready s), 0) else (s, 2).   (* ENOENT *)
 
 (* ---- the operation's code ----------------------------------------------------------------------- *)
 (* what the receiver gets for a syscall result *)
-Definition result_of (s : st) (r : sysres) : result :=
+Definition result_of (s : core) (r : sysres) : result :=
   match r with
   | SOk => RValue
-  | SFail e => if fixed (par s) then RError e else RError EPERM   (* error_code{-int(-1)} *)
+  | SFail e => if fixed (par s) then RError e else RError KPerm   (* error_code{-int(-1)} *)
   end.
 
 (* does start_io park the operation on this syscall result? *)
-Definition parks (s : st) (r : sysres) : bool :=
+Definition parks (s : core) (r : sysres) : bool :=
   match r with
   | SOk => false
-  | SFail e => if fixed (par s) then Nat.eqb e EAGAIN else true   (* -1 == -EPERM *)
+  | SFail e => if fixed (par s) then is_again e else true   (* -1 == -EPERM *)
   end.
 
 (* order of on_read/write_complete *)
-Definition oc_first (s : st) : iopc :=
+Definition oc_first (s : core) : iopc :=
   if fixed (par s) then ICDel else ICUnreg.
 (* the destruct of the stop callback: with source_ == nullptr (ran inline) or never constructed it
    does nothing observable; the caller skips to k *)
-Definition at_unreg (s : st) (unreg k : iopc) : iopc :=
+Definition at_unreg (s : core) (unreg k : iopc) : iopc :=
   match cb s with CbInline | CbNone | CbUnreg => k | _ => unreg end.
-Definition after_cunreg (s : st) : iopc :=      (* after the callback is gone (on_*_complete) *)
+Definition after_cunreg (s : core) : iopc :=      (* after the callback is gone (on_*_complete) *)
   if fixed (par s) then ICSys else if is_write (par s) then ICDel else ICAddIo.
-Definition after_cdel (s : st) : iopc :=
+Definition after_cdel (s : core) : iopc :=
   if fixed (par s) then ICAddIo else if is_write (par s) then ICAddIo else ICSys.
-Definition after_caddio (s : st) : iopc :=      (* not cancelled *)
+Definition after_caddio (s : core) : iopc :=      (* not cancelled *)
   if fixed (par s) then at_unreg s ICUnreg ICSys
   else if is_write (par s) then ICSys else ICDel.
 
 (* the callback body on some thread: returns the new state, the event and the next pc of the body
    (None = the body returned) *)
-Definition step_cb (c : cbpc) (s : st) : st * list ev * option cbpc :=
+Definition step_cb (c : cbpc) (s : core) : core * list ev * option cbpc :=
   match c with
   | CCancel =>
       let s1 := touch (upd_op s (s_io s) (S (s_cancel s)) (cenq s) (denq s) (exec s)) in
@@ -255,7 +262,7 @@ Definition step_cb (c : cbpc) (s : st) : st * list ev * option cbpc :=
   end.
 
 (* pop the next item of the batch: --enqueued_, exchange(execute_, nullptr), call it (254-259) *)
-Definition pop_item (s : st) (it : qitem) (rest : list qitem) : st * list ev :=
+Definition pop_item (s : core) (it : qitem) (rest : list qitem) : core * list ev :=
   let s0 := upd_q s rest (localq s) (remoteq s) (polled s) in
   match it with
   | QComp =>
@@ -269,7 +276,7 @@ Definition pop_item (s : st) (it : qitem) (rest : list qitem) : st * list ev :=
       (upd_io (touch (upd_op s0 (s_io s) (s_cancel s) (cenq s) (pred (denq s)) (exec s))) IDLoad, [EDenqSub (denq s)])
   end.
 
-Definition step_io (s : st) : option (st * list ev) :=
+Definition step_io (s : core) : option (core * list ev) :=
   match io s with
   | IIdle =>
       match batch s with
@@ -359,11 +366,11 @@ Definition step_io (s : st) : option (st * list ev) :=
   end.
 
 (* between two batches *)
-Definition loop_free (s : st) : bool :=
+Definition loop_free (s : core) : bool :=
   match io s, batch s with IIdle, [] => true | _, _ => false end.
 
 (* thread 1: try_schedule_local_remote_queue_contents takes the remote queue (346-355) *)
-Definition step_take (s : st) : option (st * list ev) :=
+Definition step_take (s : core) : option (core * list ev) :=
   if loop_free s then
     match remoteq s with
     | [] => None
@@ -374,7 +381,7 @@ Definition step_take (s : st) : option (st * list ev) :=
 (* thread 2: epoll_wait returns the registration of the descriptor (270, 329-331).  The harness
    (c14_sys.hpp) never hands a pointer to a completed operation, or to a completion whose execute_
    was consumed, back to the library: it reports it (STALE) and removes the registration. *)
-Definition step_deliver (s : st) : option (st * list ev) :=
+Definition step_deliver (s : core) : option (core * list ev) :=
   if loop_free s && negb (polled s) && reg s && ready s then
     if is_completed s || match exec s with None => true | _ => false end
     then Some (upd_ghost (upd_kernel s false (ready s)) (completed s) (uaf s) true (xfer s) (errs s), [EStale])
@@ -382,57 +389,90 @@ Definition step_deliver (s : st) : option (st * list ev) :=
   else None.
 
 (* thread 3: start() on another thread: execute_ = on_schedule_complete; schedule_remote(this) *)
-Definition step_starter (s : st) : option (st * list ev) :=
+Definition step_starter (s : core) : option (core * list ev) :=
   match starter s with
-  | TInc => Some (upd_thr (touch (upd_op s (s_io s) (s_cancel s) (S (cenq s)) (denq s) (exec s))) TEnq (peer_done s) (stoppers s),
+  | TInc => Some (upd_thr (touch (upd_op s (s_io s) (s_cancel s) (S (cenq s)) (denq s) (exec s))) TEnq (peer_done s) (runner s),
                   [ECenqAdd (cenq s)])
-  | TEnq => Some (upd_thr (touch (upd_q s (batch s) (localq s) (QComp :: remoteq s) (polled s))) TFin (peer_done s) (stoppers s),
+  | TEnq => Some (upd_thr (touch (upd_q s (batch s) (localq s) (QComp :: remoteq s) (polled s))) TFin (peer_done s) (runner s),
                   [ERqEnq QComp])
   | TFin => None
   end.
 
 (* thread 4: the peer *)
-Definition step_peer (s : st) : option (st * list ev) :=
+Definition step_peer (s : core) : option (core * list ev) :=
   if peer_done s then None
-  else Some (upd_thr (upd_kernel s (reg s) true) (starter s) true (stoppers s), [EPeer]).
+  else Some (upd_thr (upd_kernel s (reg s) true) (starter s) true (runner s), [EPeer]).
 
-(* stopper number i (thread 5 + i) *)
-Definition step_stopper (i : nat) (s : st) : option (st * list ev) :=
-  match nth_error (stoppers s) i with
-  | None => None
-  | Some KSet =>
-      if stopped s then Some (upd_thr s (starter s) (peer_done s) (set_nth i KFin (stoppers s)), [ESrcSet false])
-      else
-        match cb s with
-        | CbReg => Some (upd_thr (upd_src s true CbRunning) (starter s) (peer_done s) (set_nth i (KCb CCancel) (stoppers s)),
-                         [ESrcSet true])
-        | c => Some (upd_thr (upd_src s true c) (starter s) (peer_done s) (set_nth i KFin (stoppers s)), [ESrcSet true])
-        end
-  | Some (KCb c) =>
+(* request_stop() on the receiver's stop source by some stopper (stop-bit CAS; the registered
+   callback is taken under the source's lock): returns the new core and whether this stopper now
+   runs the callback *)
+Definition step_set (s : core) : core * list ev * bool :=
+  if stopped s then (s, [ESrcSet false], false)
+  else
+    match cb s with
+    | CbReg => (upd_thr (upd_src s true CbRunning) (starter s) (peer_done s) (RCb CCancel), [ESrcSet true], true)
+    | c => (upd_src s true c, [ESrcSet true], false)
+    end.
+
+(* the stopper that took the callback: the callback body, then callbackCompleted_.store(true) *)
+Definition step_run (s : core) : option (core * list ev) :=
+  match runner s with
+  | RNone => None
+  | RCb c =>
       match step_cb c s with
-      | (s1, e, Some c') => Some (upd_thr s1 (starter s1) (peer_done s1) (set_nth i (KCb c') (stoppers s1)), e)
-      | (s1, e, None) => Some (upd_thr s1 (starter s1) (peer_done s1) (set_nth i KStore (stoppers s1)), e)
+      | (s1, e, Some c') => Some (upd_thr s1 (starter s1) (peer_done s1) (RCb c'), e)
+      | (s1, e, None) => Some (upd_thr s1 (starter s1) (peer_done s1) RStore, e)
       end
-  | Some KStore =>
-      Some (upd_thr (upd_src (touch s) (stopped s) CbDone) (starter s) (peer_done s) (set_nth i KFin (stoppers s)), [ECbStore])
-  | Some KFin => None
+  | RStore =>
+      Some (upd_thr (upd_src (touch s) (stopped s) CbDone) (starter s) (peer_done s) RNone, [ECbStore])
   end.
 
-Definition step (t : nat) (s : st) : option (st * list ev) :=
+Definition step_core (t : nat) (s : core) : option (core * list ev) :=
   match t with
   | 0 => step_io s
   | 1 => step_take s
   | 2 => step_deliver s
   | 3 => step_starter s
   | 4 => step_peer s
+  | _ => None
+  end.
+
+(* ---- the whole system: core + the stoppers' status ------------------------------------------ *)
+Record st := { co : core; sts : list kst }.
+
+Definition init (p : params) (nstop : nat) : st := {| co := init_core p; sts := repeat KSet nstop |}.
+
+(* stopper number i (thread 5 + i) *)
+Definition step_stopper (i : nat) (s : st) : option (st * list ev) :=
+  match nth_error (sts s) i with
+  | None => None
+  | Some KSet =>
+      match step_set (co s) with
+      | (c, e, runs) => Some ({| co := c; sts := set_nth i (if runs then KRun else KFin) (sts s) |}, e)
+      end
+  | Some KRun =>
+      match step_run (co s) with
+      | Some (c, e) =>
+          Some ({| co := c; sts := set_nth i (match runner c with RNone => KFin | _ => KRun end) (sts s) |}, e)
+      | None => None
+      end
+  | Some KFin => None
+  end.
+
+Definition step (t : nat) (s : st) : option (st * list ev) :=
+  match t with
   | S (S (S (S (S i)))) => step_stopper i s
+  | _ => match step_core t (co s) with
+         | Some (c, e) => Some ({| co := c; sts := sts s |}, e)
+         | None => None
+         end
   end.
 
 (* ---- observations ------------------------------------------------------------------------------ *)
-Definition crashed (s : st) : bool := match io s with ICrashed => true | _ => false end.
-Definition ncompleted (s : st) : nat := length (completed s).
+Definition crashed (s : core) : bool := match io s with ICrashed => true | _ => false end.
+Definition ncompleted (s : core) : nat := length (completed s).
 (* the operation is parked waiting for readiness and nothing is wrong with that *)
-Definition parked_ok (s : st) : bool :=
+Definition parked_ok (s : core) : bool :=
   reg s && negb (ready s) && negb (stopped s) &&
   match exec s with Some HComplete => true | _ => false end.
 
